@@ -960,7 +960,10 @@ class Exec:
       if attr == "shape":
         return tuple(self.shape_sym(base, d) for d in range(base.ndim))
       if attr == "size":
-        raise Unsupported("array.size")
+        n = self.shape_sym(base, 0)
+        for d in range(1, base.ndim):
+          n = n * self.shape_sym(base, d)
+        return n
     if isinstance(base, StructVal):
       if attr in base.fields:
         return base.fields[attr]
